@@ -268,7 +268,8 @@ def sat(col, present, k, eps, strict):
 class C02(core.Prop):
     pid = 'C02'
     lean_modules = ['TddaVerif.Props.C02']
-    theorems = []
+    theorems = ['TddaVerif.Props.C02.' + t for t in ['verify_eq_spec', 'verify_flag_irrelevant', 'missing_field_fails',
+        'null_value_passes', 'fuzzDown_eq', 'fuzzUp_eq', 'totals_exact', 'verdicts_eq', 'null_constraint_inert']]
     quick_n = 500
     thorough_n = 30000
     rule = ('cases: frames of 1..3 columns x 0..10 rows over every recognised family, with a boundary-directed '
